@@ -30,7 +30,7 @@ Section Handover.
       rewrite (exec_role_transfer (env_at c sh)) in H.
       apply (role_transfer_delivered_spec (env_at c sh) Hc) in H as (_ & tok & a1 & _ & -> & _); [|exact Hsc].
       rewrite (collect_no_accounts c sh HO i id (mk_out rcOk 0) eq_refl (travels_CRT)) in Hin. destruct Hin.
-    - exfalso. exact (collect_not_handover c sh f i id o s s' H Hp Hne m Hin Hm).
+    - exfalso. exact (collect_not_handover c sh f i id o s s' H (fun _ => Hp) Hne m Hin Hm).
   Qed.
 
   (* the refund target recorded in every collected message is the caller of the emitting execution *)
